@@ -1,5 +1,5 @@
 (* C17 — GroupBy and Split re-key a dataset as an exact partition / expansion. *)
-From Connectome Require Import Values NameSet Relational RelFacts.
+From Connectome Require Import Values NameSet RelBase GroupGen SplitGen SortFacts GroupFacts SplitFacts.
 From Coq Require Import Sorting.Sorted.
 Local Open Scope list_scope.
 
